@@ -50,6 +50,7 @@ theorem fv_decide_le (a b : Fv F) : decide (a ≤ b) = Fl.le a.v b.v := by
 @[simp] theorem fv_sub (a b : Fv F) : (a - b).v = Fl.sub a.v b.v := rfl
 @[simp] theorem fv_mul (a b : Fv F) : (a * b).v = Fl.mul a.v b.v := rfl
 @[simp] theorem fv_div (a b : Fv F) : (a / b).v = Fl.div a.v b.v := rfl
+@[simp] theorem Fv.mk_v (a : Fv F) : (⟨a.v⟩ : Fv F) = a := rfl
 theorem Fv.ext' {a b : Fv F} (h : a.v = b.v) : a = b := by cases a; cases b; simp_all
 
 theorem mx2_v (a b : Fv F) : (mx2 a b).v = if Fl.lt b.v a.v = true then a.v else b.v := by
@@ -71,6 +72,31 @@ def nAt (nodes : List Int) (i j : Nat) : Int := nodes.getD (i * 4 + j) 0
 /-- the node stored in row `i` -/
 def nodeAt (vals : List F) (i : Nat) : Node (Fv F) :=
   ⟨vAt vals i 0, vAt vals i 1, vAt vals i 2, vAt vals i 3, vAt vals i 4, vAt vals i 5, vAt vals i 6⟩
+
+@[simp] theorem nodeAt_key (vals : List F) (i : Nat) : (nodeAt vals i).key = vAt vals i 0 := rfl
+@[simp] theorem nodeAt_g0 (vals : List F) (i : Nat) : (nodeAt vals i).g0 = vAt vals i 1 := rfl
+@[simp] theorem nodeAt_g1 (vals : List F) (i : Nat) : (nodeAt vals i).g1 = vAt vals i 2 := rfl
+@[simp] theorem nodeAt_g2 (vals : List F) (i : Nat) : (nodeAt vals i).g2 = vAt vals i 3 := rfl
+@[simp] theorem nodeAt_a0 (vals : List F) (i : Nat) : (nodeAt vals i).a0 = vAt vals i 4 := rfl
+@[simp] theorem nodeAt_a1 (vals : List F) (i : Nat) : (nodeAt vals i).a1 = vAt vals i 5 := rfl
+@[simp] theorem nodeAt_a2 (vals : List F) (i : Nat) : (nodeAt vals i).a2 = vAt vals i 6 := rfl
+
+/-- the hand model's `spans` / `itp` in terms of the `Fl` operations -/
+theorem spans_fl (nd : Node (Fv F)) (ang : Fv F) : spans nd ang = (Fl.le nd.a0.v ang.v && Fl.le ang.v nd.a2.v) := by
+  unfold spans; rw [fv_decide_le, fv_decide_le]
+
+theorem itp_v (nd : Node (Fv F)) (ang : Fv F) :
+    (itp nd ang).v =
+      if Fl.lt ang.v nd.a1.v = true then
+        Fl.add nd.g1.v (Fl.div (Fl.mul (Fl.sub nd.g0.v nd.g1.v) (Fl.sub nd.a1.v ang.v)) (Fl.sub nd.a1.v nd.a0.v))
+      else if Fl.lt nd.a1.v ang.v = true then
+        Fl.add nd.g1.v (Fl.div (Fl.mul (Fl.sub nd.g2.v nd.g1.v) (Fl.sub ang.v nd.a1.v)) (Fl.sub nd.a2.v nd.a1.v))
+      else nd.g1.v := by
+  unfold itp
+  simp only [fv_lt]
+  split
+  · rfl
+  · split <;> rfl
 
 /-- the pointer structure of a tree in the arrays -/
 inductive Sh where
@@ -268,34 +294,44 @@ theorem cmpScope_spec (a b r : String) (fuel : Nat) (s : State F) (hrun : s.ctl 
     · simp [exec, BE.ok, BE.eval, FE.ok, FE.eval, IE.ok, IE.eval, CmpOp.eval, h1, h2, hrun]
     · simp [exec, BE.ok, BE.eval, FE.ok, FE.eval, IE.ok, IE.eval, CmpOp.eval, h1, h2, hrun]
 
+/-- `if a > m: m = a` -/
+def maxUpd (a m : String) : St := .ite (.cmpF .gt (.var a) (.var m)) (.setF m (.var a)) .skip
+
+theorem maxUpd_spec (a m : String) (fuel : Nat) (s : State F) :
+    exec fuel (maxUpd a m) s = { s with fenv := setS s.fenv m (mx2 (⟨s.fenv a⟩ : Fv F) ⟨s.fenv m⟩).v } := by
+  unfold maxUpd
+  by_cases h : Fl.lt (s.fenv m) (s.fenv a) = true
+  · simp [exec, BE.ok, BE.eval, FE.ok, FE.eval, CmpOp.eval, h, mx2_v]
+  · simp [exec, BE.ok, BE.eval, FE.ok, FE.eval, CmpOp.eval, h, mx2_v, setS_self]
+
 /-- the expression `min(tree_vals[nid][TN_GRAD_0], tree_vals[nid][TN_GRAD_1], tree_vals[nid][TN_GRAD_2])` -/
 def minvE (nid : String) : FE :=
   (.bin .min (.bin .min (.ld2 "tree_vals" (.var nid) (.lit 1)) (.ld2 "tree_vals" (.var nid) (.lit 2)))
     (.ld2 "tree_vals" (.var nid) (.lit 3)))
 
-theorem minvE_eval (s : State F) (n : Nat) (hv : VS s n) (nid : String) :
+theorem minvE_eval (s : State F) (n : Nat) (hs : s.shp "tree_vals" = [n, 8]) (nid : String) :
     (minvE nid).eval s = (minv (nodeAt (s.fa "tree_vals") (rowOf n (s.ienv nid)))).v := by
-  have e1 := evalV s n hv.shpV nid 1 (by decide)
-  have e2 := evalV s n hv.shpV nid 2 (by decide)
-  have e3 := evalV s n hv.shpV nid 3 (by decide)
+  have e1 := evalV s n hs nid 1 (by decide)
+  have e2 := evalV s n hs nid 2 (by decide)
+  have e3 := evalV s n hs nid 3 (by decide)
   simp only [minvE, FE.eval_bin, e1, e2, e3, BinOp.eval, minv, mn2_v, nodeAt]
   rfl
 
-theorem minvE_ok (s : State F) (n : Nat) (hv : VS s n) (nid : String) (hp : PtrOK n (s.ienv nid)) :
-    (minvE nid).ok s = true := by
-  have o1 := okV s n hv.shpV nid 1 (by decide)
-  have o2 := okV s n hv.shpV nid 2 (by decide)
-  have o3 := okV s n hv.shpV nid 3 (by decide)
-  simp only [minvE, FE.ok_bin, o1, o2, o3, inRange_ptr n _ hp hv.pos, Bool.and_self]
+theorem minvE_ok (s : State F) (n : Nat) (hs : s.shp "tree_vals" = [n, 8]) (nid : String)
+    (hp : inRange (s.ienv nid) n = true) : (minvE nid).ok s = true := by
+  have o1 := okV s n hs nid 1 (by decide)
+  have o2 := okV s n hs nid 2 (by decide)
+  have o3 := okV s n hs nid 3 (by decide)
+  simp only [minvE, FE.ok_bin, o1, o2, o3, hp, Bool.and_self]
 
 /-- the inlined `_find_value_min_value(tree_vals, nid)`: `ret := min(...)` in a scope -/
 def minvScope (nid ret : String) : St := .scope (.seq (.setF ret (minvE nid)) .ret)
 
-theorem minvScope_spec (nid ret : String) (fuel n : Nat) (s : State F) (hv : VS s n) (hrun : s.ctl = .run)
-    (hp : PtrOK n (s.ienv nid)) :
+theorem minvScope_spec (nid ret : String) (fuel n : Nat) (s : State F) (hs : s.shp "tree_vals" = [n, 8])
+    (hrun : s.ctl = .run) (hp : inRange (s.ienv nid) n = true) :
     exec fuel (minvScope nid ret) s =
       { s with fenv := setS s.fenv ret (minv (nodeAt (s.fa "tree_vals") (rowOf n (s.ienv nid)))).v } := by
-  rw [minvScope, exec_scope, exec_seq, exec_setF _ _ _ _ (minvE_ok s n hv _ hp), minvE_eval s n hv]
+  rw [minvScope, exec_scope, exec_seq, exec_setF _ _ _ _ (minvE_ok s n hs _ hp), minvE_eval s n hs]
   simp [hrun, exec_ret]
 
 end XrsVerif.ILVs
